@@ -97,6 +97,12 @@ func srcSig(s *SrcView) string {
 // evalRevCall applies every enabled rule to one call.
 func (sc *RevScenario) evalRevCall(rc *ruleCtx, obs *RevObs, co *CallObs) {
 	w := co.World
+	// the rules speak of the signing time THIS caller supplied
+	if len(w.RepST) > 0 {
+		savedHas, savedST := w.HasST, w.ST
+		w.HasST, w.ST = w.repST(co.Rep)
+		defer func() { w.HasST, w.ST = savedHas, savedST }()
+	}
 	// ---------- C12.R4: invalid or empty chain ----------
 	if w.ChainDefect != ChainOK && w.chainActuallyInvalid() {
 		if rc.on("C12") && co.Panicked && sc.PanicAt == "" {
@@ -297,7 +303,7 @@ func (sc *RevScenario) evalCert(rc *ruleCtx, obs *RevObs, co *CallObs, v *CertVi
 			// the entry is justified if any of those contacts delivered Good
 			justified := false
 			for _, c := range v.OCSP {
-				if c.URL == sr.Server && c.Contacted && hasAlt(c, good) {
+				if c.URL == sr.Server && (c.Contacted || c.Shared) && hasAlt(c, good) {
 					justified = true
 				}
 			}
@@ -309,7 +315,7 @@ func (sc *RevScenario) evalCert(rc *ruleCtx, obs *RevObs, co *CallObs, v *CertVi
 			rc.anteTrue("C04.R1")
 			anyGood := false
 			for _, s := range v.OCSP {
-				if s.Contacted && hasAlt(s, good) {
+				if (s.Contacted || s.Shared) && hasAlt(s, good) {
 					anyGood = true
 				}
 			}
@@ -324,7 +330,7 @@ func (sc *RevScenario) evalCert(rc *ruleCtx, obs *RevObs, co *CallObs, v *CertVi
 			}
 			earlier := false
 			for _, e := range v.OCSP[:i] {
-				if e.Contacted && hasAlt(e, decisive) {
+				if (e.Contacted || e.Shared) && hasAlt(e, decisive) {
 					earlier = true
 				}
 			}
